@@ -407,18 +407,18 @@ RECURSIVE SideDiagsOf(_)
 SideDiagsOf(es) == IF es = <<>> THEN <<>> ELSE (IF IsSide(Head(es)) THEN <<SideDiag(Head(es))>> ELSE <<>>) \o SideDiagsOf(Tail(es))
 
 RECURSIVE Fold(_, _, _)
-\* input by input, in order: printed values, diagnostics, the status of the last error, the halt
+\* input by input, in order: printed values, diagnostics, the status carried by the last error, the halt
 Fold(items, o, acc) ==
   IF items = <<>> THEN acc
   ELSE LET it == Head(items) IN
-    IF it.k = "err" THEN Fold(Tail(items), o, [acc EXCEPT !.diag = Append(@, InputDiag), !.failed = TRUE])
+    IF it.k = "err" THEN Fold(Tail(items), o, [acc EXCEPT !.diag = Append(@, InputDiag), !.failed = TRUE, !.code = 5])
     ELSE LET stop == StopIndex(it.ev, o, 1)
              pre == SubSeq(it.ev, 1, stop - 1)                 \* what happens before the run is ended
              st == IF stop > Len(it.ev) THEN [k |-> "end"] ELSE it.ev[stop]
              a1 == [acc EXCEPT !.out = @ \o ValsOf(pre), !.diag = @ \o SideDiagsOf(pre)]
          IN CASE st.k = "end" -> Fold(Tail(items), o, a1)
               \* an error ends this input's outputs; later inputs are still processed
-              [] st.k = "val" -> Fold(Tail(items), o, [a1 EXCEPT !.diag = Append(@, NulDiag), !.failed = TRUE])
+              [] st.k = "val" -> Fold(Tail(items), o, [a1 EXCEPT !.diag = Append(@, NulDiag), !.failed = TRUE, !.code = 5])
               [] st.k = "err" -> Fold(Tail(items), o, [a1 EXCEPT !.diag = Append(@, ErrDiag(st)), !.failed = TRUE, !.code = ErrCode(st)])
               \* halt and halt_error stop at once
               [] st.k = "halt" -> [a1 EXCEPT !.diag = @ \o HaltDiag(st), !.stopped = TRUE, !.code = st.c]
